@@ -278,7 +278,8 @@ func c11PoolUnit(driver string, depth, shard, nshards int) vh.Unit {
 			},
 			Key: func(wi interface{}) string {
 				w := wi.(*world)
-				return fmt.Sprintf("%v|%s", w.open, w.model.Key())
+				// (the model, plus whatever plain-data state the pool object keeps for itself)
+				return fmt.Sprintf("%v|%s|%s", w.open, w.model.Key(), w.pw.RegistryKey())
 			},
 		}
 		vh.RunBFS(u, spec)
@@ -446,8 +447,10 @@ func init() {
 				for s := 0; s < 6; s++ {
 					us = append(us, c11StoreUnit(vh.Badger, 4, s, 6))
 				}
+				for s := 0; s < 8; s++ {
+					us = append(us, c11PoolUnit(vh.Memory, 5, s, 8))
+				}
 				for s := 0; s < 4; s++ {
-					us = append(us, c11PoolUnit(vh.Memory, 4, s, 4))
 					us = append(us, c11PoolUnit(vh.Badger, 3, s, 4))
 				}
 			}
